@@ -163,6 +163,7 @@ type FuncSpec struct {
 	Opaque   bool // body not verified (trusted) for repo functions
 	Mutates  []string
 	Reveal   []string
+	Asserts  map[int][]*Clause // ghost assertions after the N-th call (source order, builtins excluded)
 	Used     bool
 	fn       *ssa.Function
 }
@@ -584,7 +585,7 @@ func parseExprString(src string) (e Expr, err error) {
 
 // ---------- file-level parsing ----------
 
-var declKeywords = map[string]bool{"opaque": true, "reveal": true, "import": true, "ghost": true, "fun": true, "pred": true, "ufun": true,
+var declKeywords = map[string]bool{"after": true, "assert": true, "opaque": true, "reveal": true, "import": true, "ghost": true, "fun": true, "pred": true, "ufun": true,
 	"axiom": true, "func": true, "extern": true, "lemma": true, "requires": true, "ensures": true,
 	"modifies": true, "loop": true, "invariant": true, "pure": true, "free": true, "trusted": true, "mutates": true,
 	"package": true}
@@ -653,6 +654,7 @@ func (db *SpecDB) LoadSpecFile(path string, pkgPath string) error {
 	imports := map[string]string{}
 	db.Imports[path] = imports
 	var cur *FuncSpec
+	curCall := 0
 	var curLoop *LoopSpec
 	var curLemma *Lemma
 	fail := func(ll logLine, err interface{}) error {
@@ -780,7 +782,8 @@ func (db *SpecDB) LoadSpecFile(path string, pkgPath string) error {
 			db.Axioms = append(db.Axioms, &Axiom{Name: name, E: e, PkgPath: pkgPath, File: path})
 			cur, curLoop, curLemma = nil, nil, nil
 		case "extern", "func":
-			fs := &FuncSpec{Loops: map[int]*LoopSpec{}, File: path, Line: ll.line, PkgPath: pkgPath}
+			fs := &FuncSpec{Loops: map[int]*LoopSpec{}, Asserts: map[int][]*Clause{}, File: path, Line: ll.line, PkgPath: pkgPath}
+			curCall = 0
 			r := rest
 			if kw == "extern" {
 				fs.Extern = true
@@ -898,7 +901,30 @@ func (db *SpecDB) LoadSpecFile(path string, pkgPath string) error {
 				return fail(ll, "trusted outside func")
 			}
 			cur.Opaque = true
+		case "after":
+			if cur == nil {
+				return fail(ll, "after outside func")
+			}
+			var n int
+			fmt.Sscanf(strings.TrimSuffix(strings.TrimSpace(strings.TrimPrefix(rest, "call")), ":"), "%d", &n)
+			if n <= 0 {
+				return fail(ll, "after call N:")
+			}
+			curCall = n
+			curLoop = nil
+		case "assert":
+			if cur == nil || curCall == 0 {
+				return fail(ll, "assert outside 'after call N:'")
+			}
+			tags, r := splitTags(rest)
+			label, body := splitLabel(r)
+			e, err := parseExprString(body)
+			if err != nil {
+				return fail(ll, err)
+			}
+			cur.Asserts[curCall] = append(cur.Asserts[curCall], &Clause{Kind: "assert", Tags: tags, Label: label, E: e, Src: body})
 		case "loop":
+			curCall = 0
 			if cur == nil {
 				return fail(ll, "loop outside func")
 			}
